@@ -44,7 +44,7 @@ class C06(BaseCheck):
   REQUIRED_ANCHORS = ANCHORS
   REQUIRED_CLASSES = ('phase:in-band', 'phase:pinned-max', 'phase:pinned-min', 'phase:pinned-members',
                       'expansion', 'contraction', 'jitter-round', 'member-down', 'leave-active',
-                      'leave-during-jitter-round')
+                      'leave-during-jitter-round', 'close-raises-in-jitter-round')
   ASSUMPTIONS = ('smoothed load = harness reference EMA with the balancer\'s documented 5 s window and the '
                  'same sampling points (cross-checked against the published load_average gauge); phases whose '
                  'per-member load is within 1e-6 of a band edge for a relevant size are skipped and counted',
@@ -63,9 +63,16 @@ class C06(BaseCheck):
 
       def _Jitter(self_):
         env.emit('lb.jitter.begin')
+        env.c06_jitter_depth = getattr(env, 'c06_jitter_depth', 0) + 1
+        hook = getattr(env, 'c06_jitter_hook', None)
+        if hook is not None:
+          hook('begin')
         try:
           return orig(self_)
         finally:
+          env.c06_jitter_depth -= 1
+          if hook is not None:
+            hook('end')
           env.emit('lb.jitter.end')
       _Jitter._verif_tap = True
       _Jitter.__wrapped__ = orig
@@ -100,10 +107,68 @@ class C06(BaseCheck):
     growth_misses = []
     orig_adjust = lb._AdjustAperture
 
+    shrink_misses = []
+    stale_pending = set()
+    env.c06_jitter_depth = 0
+    # in some cases Close() of a member that a jitter round rotates out while it is idle reports
+    # an error (closing a connection whose peer is already gone); the round's bookkeeping must
+    # survive that
+    jit_close_raises = jitter and rng.random() < 0.4
+    armed, close_raised = set(), [False]
+
+    orig_contract = lb._ContractAperture
+
+    def contract(force=False):
+      arm = jit_close_raises and force and rng.random() < 0.6
+      if arm:
+        for n_ in lb._heap[1:]:
+          if w.model_out(n_.channel) == 0:
+            n_.channel.close_raises = True
+            armed.add(n_.channel)
+        classes.add('close-raises-in-jitter-round')
+      try:
+        return orig_contract(force)
+      finally:
+        if arm:
+          if any(c_ in armed and not c_.close_raises for c_ in w.channels):
+            close_raised[0] = True      # an armed Close() was called and raised
+          armed.clear()
+          for c_ in w.channels:
+            c_.close_raises = False
+    lb._ContractAperture = contract
+    pending_log = []
+    orig_try_expand = lb._TryExpandAperture
+
+    def try_expand(leave_pending=False):
+      r_ = orig_try_expand(leave_pending)
+      if r_[1] is not None:
+        pending_log.append((env.now, str(r_[1]), 'jitter' if leave_pending else 'load/replacement', r_[0].ready()))
+      return r_
+    lb._TryExpandAperture = try_expand
+
     def adjust_hook(amount):
       size0, idle0 = lb._size, len(lb._idle_endpoints)
+      # the mirror image for contraction: the event finds the smoothed load per active member at or
+      # below min_load, more than min_size healthy members active, no member connecting and no
+      # jitter round in progress
+      chans0 = [n_.channel for n_ in lb._heap[1:]]
+      can_shrink = (size0 > mn and sum(1 for c_ in chans0 if c_._state <= 3) > mn
+                    and not any(c_._state == IDLE for c_ in chans0) and not env.c06_jitter_depth
+                    and not any(c_.opens_in_flight for c_ in w.channels)
+                    # an endpoint the balancer treats as connecting counts as such until the event loop
+                    # has run the completion callbacks of its open: only entries that were already
+                    # there at the last quiescent point (nothing in flight any more) are stale
+                    and set(lb._pending_endpoints) <= stale_pending)
       r_ = orig_adjust(amount)
       stats['adjust_events'] = stats.get('adjust_events', 0) + 1
+      if can_shrink and lb._ema.value / size0 <= lo_load * (1 - 1e-9):
+        stats['shrink_events'] = stats.get('shrink_events', 0) + 1
+        if lb._size >= size0:
+          shrink_misses.append((size0, lb._ema.value, sorted(map(str, lb._pending_endpoints)),
+                                {'t': env.now, 'pending_log': pending_log[-6:],
+                                 'amount': amount, 'size_after': lb._size,
+                                 'channels': [(repr(c_), c_.opens_in_flight, c_.close_steps) for c_ in w.channels],
+                                 'heap': [repr(n_.channel) for n_ in lb._heap[1:]]}))
       if size0 > 0 and idle0 and size0 < mx and lb._ema.value / size0 >= hi_load * (1 + 1e-9):
         stats['growth_events'] = stats.get('growth_events', 0) + 1
         if lb._size <= size0:
@@ -171,7 +236,9 @@ class C06(BaseCheck):
             {'dup': len(set(active)) != s, 'overlap': bool(set(active) & idle)})
       out.obligations += 1
       ga, gi = gauge('active'), gauge('idle')
-      if ga is not None and (ga != s or gi != len(idle)):
+      if ga is not None and (ga != s or gi != len(idle)) and not close_raised[0]:
+        # (after an injected Close() error the published gauges are not judged: the statement does
+        # not speak of them, and the error leaves the round before they are refreshed)
         viol('gauges', 'published active/idle gauges %r/%r, sets have %d/%d' % (ga, gi, s, len(idle)), {})
       logs = env.logs[log_mark:]
       marked_down = any('Marking node' in l[2] and 'down' in l[2] for l in logs) or \
@@ -179,6 +246,9 @@ class C06(BaseCheck):
       jit = jitter_active_since(ev_mark)
       if jit:
         classes.add('jitter-round')
+      stale_pending.clear()
+      if not env.c06_jitter_depth and not any(c_.opens_in_flight for c_ in w.channels):
+        stale_pending.update(lb._pending_endpoints)
       if not ss.pending and not lb._pending_endpoints:
         # whatever happened (leave, failure, contraction): with idle members to draw from the
         # active set is never left below the floor
@@ -413,16 +483,30 @@ class C06(BaseCheck):
            'set did not grow (%d member(s) were still opening)' % (
              len(growth_misses), hi_load, g0[2], g0[0], g0[1], mx if mx < 2 ** 31 else 'inf', g0[3]),
            {'pending': g0[3] > 0})
+    out.obligations += 1
+    if shrink_misses:
+      g0 = shrink_misses[0]
+      viol('shrink-stalled', '%d request event(s) found the smoothed load per active member at or below min_load=%.2f '
+           '(first: %.3f outstanding over %d active, min_size=%d) with more than min_size healthy members active, no '
+           'member connecting and no jitter round in progress, and the active set did not shrink (endpoints the '
+           'balancer still treats as connecting: %r)' % (len(shrink_misses), lo_load, g0[1], g0[0], mn, g0[2]),
+           {'stale_pending': bool(g0[2])}, g0[3])
     # ---------------------------------------------------------------- drain
     for r in list(live):
       w.complete(r, 'reply')
     env.advance(1.0)
     chan_cls.AsyncProcessRequest = orig_apr
+    lb._ContractAperture = orig_contract     # no injected errors once the case is being torn down
     w.top.Close()
+    # a round that is still waiting for its newcomer would schedule the next one when it ends:
+    # the balancer of a finished case must not keep jittering into the following cases
+    lb._ScheduleNextJitter = lambda: None
     if jitter and getattr(lb, '_next_jitter', None):
       lb._next_jitter()      # cancel the pending jitter timer of this case
     env.settle()
     for e in env.errors:
+      if jit_close_raises and e['type'] == 'OSError' and 'Transport endpoint is not connected' in str(e['value']):
+        continue      # the injected Close() error, escaping from the jitter round's greenlet
       viol('greenlet-error:' + e['type'], 'unhandled exception: %s: %s\n%s' % (e['type'], e['value'], e['tb'][-300:]),
            {'exc': e['type']})
     out.classes = sorted(classes)
